@@ -560,3 +560,61 @@ func (n *normalizer) deferThrough(d *ast.DeferStmt, st *inlState) ([]ast.Stmt, b
 	blk.List[len(blk.List)-1] = &ast.DeferStmt{Defer: d.Defer, Call: lc}
 	return prefix, true
 }
+
+// namedResOf: the names of the helper's named results.
+func namedResOf(fd *ast.FuncDecl) []string {
+	var out []string
+	if fd.Type.Results != nil {
+		for _, f := range fd.Type.Results.List {
+			for _, nm := range f.Names {
+				out = append(out, nm.Name)
+			}
+		}
+	}
+	return out
+}
+
+// renameHelperVars renames, in the cloned helper body cb, the variables the helper itself declares (receiver,
+// parameters, locals) under one of the given names.  False when a name is declared more than once in the helper
+// (shadowing): left alone then.
+func (n *normalizer) renameHelperVars(cb *ast.BlockStmt, fd *ast.FuncDecl, renamed map[string]string) bool {
+	objs := map[types.Object]string{}
+	count := map[string]int{}
+	ast.Inspect(fd, func(x ast.Node) bool {
+		if id, ok := x.(*ast.Ident); ok {
+			if ob, isVar := n.info.Defs[id].(*types.Var); isVar && !ob.IsField() {
+				if nn, has := renamed[id.Name]; has {
+					objs[ob] = nn
+					count[id.Name]++
+				}
+			}
+		}
+		return true
+	})
+	for _, k := range count {
+		if k != 1 {
+			return false
+		}
+	}
+	ast.Inspect(cb, func(x ast.Node) bool {
+		id, ok := x.(*ast.Ident)
+		if !ok {
+			return true
+		}
+		oid, _ := n.o(id).(*ast.Ident)
+		if oid == nil {
+			return true
+		}
+		var ob types.Object
+		if d := n.info.Defs[oid]; d != nil {
+			ob = d
+		} else {
+			ob = n.info.Uses[oid]
+		}
+		if nn, has := objs[ob]; has && ob != nil {
+			id.Name = nn
+		}
+		return true
+	})
+	return true
+}
